@@ -36,6 +36,26 @@ func (g GoResult) Panic() string {
 	return ""
 }
 
+// batchCache returns a build cache used only for the reference batches. Every batch consists of
+// hundreds of packages that are never built again, so the cache is wiped every 30 batches instead of
+// growing without bound (the shared default cache reached 124 GB in one day of sweeps).
+func batchCache() string {
+	dir := filepath.Join(os.TempDir(), "verif-batch-gocache")
+	os.MkdirAll(dir, 0o755)
+	cnt := filepath.Join(dir, "verif-batches")
+	n := 0
+	if b, err := os.ReadFile(cnt); err == nil {
+		n, _ = strconv.Atoi(strings.TrimSpace(string(b)))
+	}
+	if n >= 30 {
+		os.RemoveAll(dir)
+		os.MkdirAll(dir, 0o755)
+		n = 0
+	}
+	os.WriteFile(cnt, []byte(strconv.Itoa(n+1)), 0o644)
+	return dir
+}
+
 var mainRe = regexp.MustCompile(`(?m)^func main\(\)`)
 var pkgRe = regexp.MustCompile(`(?m)^package main\b`)
 var pkgDirRe = regexp.MustCompile(`\bp(\d{5})/`)
@@ -74,7 +94,8 @@ func RunGoBatch(progs []string, perRun time.Duration) ([]GoResult, error) {
 		}
 		alive[i] = true
 	}
-	env := append(os.Environ(), "GOFLAGS=-mod=mod", "GOPROXY=off", "GOSUMDB=off", "GOTOOLCHAIN=local", "GO111MODULE=on")
+	env := append(os.Environ(), "GOFLAGS=-mod=mod", "GOPROXY=off", "GOSUMDB=off", "GOTOOLCHAIN=local", "GO111MODULE=on",
+		"GOCACHE="+batchCache())
 	bin := filepath.Join(dir, "batch.bin")
 	for attempt := 0; ; attempt++ {
 		var b strings.Builder
